@@ -17,7 +17,7 @@ MANIFEST = dict(
          "model, which covers all wake-up orders, jitter and any number of waiters. Tie = trace validation: the real task set started by GeckoAsyncSpa._connect on the "
          "virtual-time loop, queue instrumented from outside, arrival scripts of known / unknown / unsolicited / mis-addressed / malformed datagrams; every observed "
          "put / pop / mark / unhandled-consumer step must be enabled in the model and have the model's outcome."
-         " Since session 3: the connection's packet consumer is also modelled at the byte level as the long-lived object it is (Model/PacketConsumer.lean over C04's regex model): consume_eq_spec (over any history and whatever the object held before, what is re-queued is exactly the DATAS of the frames that parse and carry this connection's address and identifier pair), misaddressed_frame_no_effect / addressed_frame_requeued for arbitrary payloads; tied by feeding histories to the real handler + the real _async_on_packet exactly as consume() does, plus a re-queue conservation monitor on the whole task set. Session 4: the client event handler really suspends (0/250/0/120 ms by round) so peek and pop are separated by other consumers turns; a consumer task that ends with an exception is a violation. The atomic consumer step of the model is itself proved: the suspension skeletons of the three consuming coroutines are regenerated from the source, a static analysis proved sound for every trace (scan_sound) shows no suspension point between looking at the head and popping it, and atomic_sections lifts that to every schedule of the event loop (peek_pop_atomic_in_every_schedule).",
+         " Since session 3: the connection's packet consumer is also modelled at the byte level as the long-lived object it is (Model/PacketConsumer.lean over C04's regex model): consume_eq_spec (over any history and whatever the object held before, what is re-queued is exactly the DATAS of the frames that parse and carry this connection's address and identifier pair), misaddressed_frame_no_effect / addressed_frame_requeued for arbitrary payloads; tied by feeding histories to the real handler + the real _async_on_packet exactly as consume() does, plus a re-queue conservation monitor on the whole task set. Session 4: the client event handler really suspends (0/250/0/120 ms by round) so peek and pop are separated by other consumers turns; a consumer task that ends with an exception is a violation. The atomic consumer step of the model is itself proved: the suspension skeletons of the three consuming coroutines are regenerated from the source, a static analysis proved sound for every trace (scan_sound) shows no suspension point between looking at the head and popping it, and atomic_sections lifts that to every schedule of the event loop (peek_pop_atomic_in_every_schedule). The packet-consumer correspondence observes the real protocol queue; a backlog run of 150 datagrams with a conservation check at the end.",
     note="partial: the head-of-line bound is proved under the fairness hypothesis 'the unhandled consumer runs when its 100 ms timer is due' (no event-loop stall; "
          "real timer skew is outside); the safety clauses need no such hypothesis. Trusted: Lean kernel; asyncio semantics (no pre-emption between awaits); the harness "
          "instrumentation (monkeypatched AsyncPeekableQueue recording caller frames). A consumer whose async_handle raises on a malformed body dies (Python task semantics); "
@@ -223,6 +223,11 @@ def monitors(ctx, tr, res, classes, fair, inp):
                 ctx.violation("non-head-pop", inp, "pops take the head", f"datagram {did} popped while {queue[0]} was head")
                 queue.remove(did)
             head_since = ms if queue else None
+    # conservation at the end of the run: a datagram that was put and never popped is still IN the queue (none vanishes on the side)
+    left = [d for d in put_time if d not in popped]
+    if res.get("queued_at_end", -1) >= 0 and len(left) != res["queued_at_end"]:
+        ctx.violation("vanished-from-queue", inp, "every datagram received is either popped by somebody or still queued",
+                      {"received": len(put_time), "popped": len(popped), "still_queued": res["queued_at_end"], "unaccounted": len(left) - res["queued_at_end"]})
     if fair and max_age > 300:
         ctx.violation("head-age", inp, "no datagram at the head for more than 3 polling intervals (300 ms)", f"{max_age} ms")
     return max_age, len(popped)
@@ -245,6 +250,7 @@ def packet_consumer_histories(ctx):
         src = rng.choice([spa_id, spa_id, spa_id, b"SPA99:99:99:99:99:99", b"", spa_id + b"x", spa_id[:-1]])
         dst = rng.choice([cli, cli, cli, b"IOSsomeoneelse", b"", cli.lower()])
         pay = rng.choice([b"APING\x00", b"RFERR", b"STATP\x01\x00\x10\xaa\xbb", b"", b"x</DATAS>y", b"<DATAS>", b"a</DESCN><DATAS>b", b"\n\x00\xff",
+                          b"STATV\x00\x01\x03ab\n", b"CHCUR\x05\r", b"STATP\x01\x00\x10\xaa\x0a", b"\r\n", b" x \t",
                           bytes(rng.randrange(256) for _ in range(rng.randrange(0, 12)))])
         kind = rng.random()
         if kind < 0.55:
@@ -268,15 +274,21 @@ def packet_consumer_histories(ctx):
         out = []
         for h_i in range(40 if ctx.quick else 600):
             recorded = []
+            # the REAL protocol object receives what the packet consumer re-queues (its own datagram_received, its own queue): what is
+            # observed is what a verb consumer would find at the head of the receive queue
+            from geckolib.driver.async_udp_protocol import GeckoAsyncUdpProtocol
+            proto = GeckoAsyncUdpProtocol(None, desc.destination)
+            proto.connection_made(vloop.FakeTransport(loop, proto))
 
-            class P:
-                def datagram_received(self, data, parms):
-                    recorded.append(data)
+            def drain():
+                while proto.queue.head is not None:
+                    recorded.append(proto.queue.head[0])
+                    proto.queue.pop()
 
             async def on_event(*a, **k):
                 pass
             spa = GeckoAsyncSpa(CLIENT, desc, AsyncTasks(), on_event)
-            spa._protocol = P()
+            spa._protocol = proto
             handler = GeckoPacketProtocolHandler(async_on_handled=spa._async_on_packet)
             hist = [mk(rng) for _ in range(rng.randint(1, 9))]
             steps = []
@@ -288,6 +300,7 @@ def packet_consumer_histories(ctx):
                     else:
                         await handler.async_handle(d, sender)
                         await handler.async_handled(sender)
+                        drain()
                         new = recorded[n0:]
                         ans = "drop" if not new else ("requeue " + ("none" if new[0] is None else hx(new[0])) + (" +%d" % (len(new) - 1) if len(new) > 1 else ""))
                 except Exception as e:  # noqa
@@ -348,16 +361,23 @@ def run(ctx):
     all_lines, expected = [], []
     nontrivial = set()
     total_dgrams = 0
-    for r in range(n_runs):
+    for r in range(n_runs + 1):
         fair = r % 3 != 2            # every third run uses timer jitter (= stalls): safety clauses only
         seed = rng.randrange(1 << 30)
         arrivals = gen_arrivals(rng, 60 if ctx.quick else 120, 9000)
         slow = [0, 250, 0, 120][r % 4]
+        horizon = 11.0
+        if r == n_runs:
+            # one run with a BACKLOG: 150 datagrams of every class arrive within a few milliseconds (a chatty spa after a stall of the
+            # client); they leave one per polling interval, so the run lasts long enough to drain them
+            burst = gen_arrivals(rng, 400, 10 ** 9)
+            arrivals = [(2000 + (k // 50), d, lab) for k, (_, d, lab) in enumerate(burst[:150])]
+            fair, slow, horizon = True, 0, 40.0
         inp = {"seed": seed, "fair": fair, "arrivals": [(ms, hx(d), lab) for ms, d, lab in arrivals][:200]}
         if slow:
             inp["slow_client_ms"] = slow
         try:
-            res = run_connection(arrivals, seed, shuffle=True, jitter=0.0 if fair else 0.03, horizon_s=11.0, slow_client_ms=slow)
+            res = run_connection(arrivals, seed, shuffle=True, jitter=0.0 if fair else 0.03, horizon_s=horizon, slow_client_ms=slow)
         except Exception as e:  # noqa
             ctx.violation("connection-raised", inp, "the connection task set runs", f"{type(e).__name__}: {e}")
             continue
@@ -453,15 +473,14 @@ def replay(inp):
 
         async def body(loop):
             recorded = []
-
-            class P:
-                def datagram_received(self, data, parms):
-                    recorded.append(data)
+            from geckolib.driver.async_udp_protocol import GeckoAsyncUdpProtocol
+            proto = GeckoAsyncUdpProtocol(None, desc.destination)
+            proto.connection_made(vloop.FakeTransport(loop, proto))
 
             async def on_event(*a, **k):
                 pass
             spa = GeckoAsyncSpa(CLIENT, desc, AsyncTasks(), on_event)
-            spa._protocol = P()
+            spa._protocol = proto
             h = GeckoPacketProtocolHandler(async_on_handled=spa._async_on_packet)
             last = None
             for dh, sender in inp["history"]:
@@ -470,6 +489,9 @@ def replay(inp):
                 if h.can_handle(d, tuple(sender)):
                     await h.async_handle(d, tuple(sender))
                     await h.async_handled(tuple(sender))
+                    while proto.queue.head is not None:
+                        recorded.append(proto.queue.head[0])
+                        proto.queue.pop()
                 last = (d, tuple(sender), recorded[n0:])
             return last
         d, sender, new = vloop.run_virtual(body, seed=1)
@@ -478,6 +500,7 @@ def replay(inp):
         want = [m.group(3)] if ok else []
         return new != want, {"requeued_by_last_datagram": [hx(x) if x is not None else None for x in new], "expected": [hx(x) for x in want]}
     arrivals = [(ms, bytes.fromhex(d) if d != "-" else b"", lab) for ms, d, lab in inp["arrivals"]]
-    res = run_connection(arrivals, inp["seed"], shuffle=True, jitter=0.0 if inp["fair"] else 0.03, horizon_s=11.0, slow_client_ms=inp.get("slow_client_ms", 0))
+    res = run_connection(arrivals, inp["seed"], shuffle=True, jitter=0.0 if inp["fair"] else 0.03, horizon_s=11.0 if len(arrivals) < 140 else 40.0,
+                         slow_client_ms=inp.get("slow_client_ms", 0))
     monitors(ctx, res["trace"], res, handler_classes(), inp["fair"], inp)
     return bool(ctx.violations), ctx.violations[0]["observed"] if ctx.violations else "trace satisfies the monitors"
